@@ -408,7 +408,7 @@ func (r Relation) Hash(seed uintptr) uintptr {
 	for i := r.Enumerator(); i.MoveNext(); {
 		h ^= i.Current().Hash(seed)
 	}
-	return h
+	return finishHash(h, seed)
 }
 
 // RelationValuesEnumerator enumerates the values as Values.
